@@ -63,7 +63,9 @@ def step (line : String) : String :=
     | _, _ => "bad-op"
   | "sink" :: spec :: ct :: sz :: msgs =>
     match parseSpec spec, ct.toInt?, sz.toInt?,
-      msgs.mapM (fun t => if t == "R" then some SinkOp.restart else (parseMsg t).map SinkOp.msg) with
+      msgs.mapM (fun t => if t == "R" then some SinkOp.restart
+                          else if t.startsWith "X" then ((t.drop 1).toString.toInt?).map SinkOp.foreign
+                          else (parseMsg t).map SinkOp.msg) with
     | some items, some ct, some sz, some ops =>
       match makeRotation items with
       | .error e => "err " ++ toString e
